@@ -463,6 +463,29 @@ func visualLength(runes []rune) int {
 	return length
 }
 
+// queryTerminators returns the positions of the semicolons that end a query:
+// a semicolon inside a quoted literal or identifier is part of the query text.
+func queryTerminators(line []rune) []int {
+	var ret []int
+	var quote rune
+	for i := 0; i < len(line); i++ {
+		ch := line[i]
+		switch {
+		case quote != 0:
+			if ch == '\\' && quote != '`' {
+				i++ // escaped character
+			} else if ch == quote {
+				quote = 0
+			}
+		case ch == '\'' || ch == '"' || ch == '`':
+			quote = ch
+		case ch == ';':
+			ret = append(ret, i)
+		}
+	}
+	return ret
+}
+
 // handleKey processes the given key and, optionally, returns a line of text
 // that the user has entered.
 func (t *Terminal) handleKey(key rune) (line []string, ok bool) {
@@ -567,19 +590,21 @@ func (t *Terminal) handleKey(key rune) (line []string, ok bool) {
 		t.setLine(t.line, t.pos)
 	case keyEnter:
 		strline := strings.TrimSpace(string(t.line))
+		// positions of the query terminators: semicolons outside of quotes
+		terminators := queryTerminators(t.line)
+		lastIsTerminator := len(terminators) > 0 &&
+			len(strings.TrimSpace(string(t.line[terminators[len(terminators)-1]+1:]))) == 0
 		// if the last thing entered was a query terminator
-		if len(strline) == 0 || strline[len(strline)-1:] == ";" {
+		if len(strline) == 0 || lastIsTerminator {
 			// not sure what this is for
 			t.moveCursorToPos(len(t.line))
 			t.queue([]rune("\r\n"))
 
 			// split string until queries terminated by ;
 			begin := 0
-			for cur := 0; cur < len(t.line); cur++ {
-				if t.line[cur] == 59 {
-					line = append(line, strings.TrimSpace(string(t.line[begin:cur+1])))
-					begin = cur + 1
-				}
+			for _, cur := range terminators {
+				line = append(line, strings.TrimSpace(string(t.line[begin:cur+1])))
+				begin = cur + 1
 			}
 
 			ok = true
